@@ -61,13 +61,21 @@ void StatHist::enumInit(unsigned int) {}
 void StatHist::count(double) {}
 
 // ---------------------------------------------------------------- data with symbolic bytes
-enum Mode { PAIR, ANY };
+enum Mode { PAIR, ANY, TRIPLE };
 static char *datum(const char *prefix, const Mode mode, const char mid = 'a')
 {
     const size_t pl = strlen(prefix);
     char *s = (char *)xcalloc(pl + 4, 1);
     memcpy(s, prefix, pl);
-    if (mode == ANY) {
+    if (mode == TRIPLE) {
+        // three bytes over class representatives (plain, metacharacters, UTF-8 continuation and 2-/3-/4-byte lead bytes), every combination:
+        // a metacharacter stays neutralised whatever precedes it
+        for (unsigned i = 0; i < 3; ++i) {
+            const unsigned char b = vf_nondet_u8("ctx");
+            vf_assume(b == 'a' || b == '<' || b == '"' || b == '&' || b == 0x80 || b == 0xc2 || b == 0xe2 || b == 0xf0);
+            s[pl + i] = (char)vf_concretize(b);
+        }
+    } else if (mode == ANY) {
         s[pl] = (char)vf_nondet_u8("any"); vf_assume(s[pl] != 0);
         s[pl + 1] = mid;
     } else {
@@ -231,6 +239,8 @@ extern "C" void c33_any_uri(void) { run(7, 10, ANY, true); }
 extern "C" void c33_any_other(void) { run(11, 15, ANY, true); }
 #else
 // quick: one representative %code for four of the places
+extern "C" void c33_ctx_url(void) { run(0, 0, TRIPLE, true); }          // %U without request, 3 context bytes
+extern "C" void c33_ctx_user(void) { run(15, 15, TRIPLE, true); }       // %a, 3 context bytes
 extern "C" void c33_any_url(void) { run(0, 0, ANY, true); }         // %U without request
 extern "C" void c33_any_host(void) { run(7, 7, ANY, true); }        // %H
 extern "C" void c33_any_header_user(void) { run(13, 13, ANY, true); }    // %R with a header value
